@@ -1495,7 +1495,10 @@ pub fn render_layout(p: &Program, rng: &mut Rng, o: LayoutOpts) -> String {
                 if ends((d, in_else, vis), t.mark) {
                     s.push_str(nl);
                     let sibling = if vis { is_vis_kw(t) && matches!(t.mark, Mark::Closer(x) if x == d) } else { matches!(t.mark, Mark::Start(x) if x == d) };
-                    if !in_else && sibling && rng.chance(1, if o.line_comments_only { 2 } else { 3 }) {
+                    // the closing `end.` of the unit is not a sibling declaration: an {$else} branch holding it alone would
+                    // leave the other branch without it (not well-formed)
+                    let unit_end = t.text.eq_ignore_ascii_case("end") && d == 0;
+                    if !in_else && sibling && !unit_end && rng.chance(1, if o.line_comments_only { 2 } else { 3 }) {
                         s.push_str("{$else}");
                         open_stack.last_mut().unwrap().1 = true;
                     } else {
@@ -1524,7 +1527,10 @@ pub fn render_layout(p: &Program, rng: &mut Rng, o: LayoutOpts) -> String {
             };
             if let Some((d, vis)) = open_at {
                 // marked programs: only whole statements and members are wrapped (a routine header at depth 0 is not a whole declaration)
-                let wrap_ok = if o.line_comments_only { d >= 1 && rng.chance(1, 6) } else { rng.chance(1, 12) };
+                // section keywords of the unit (and its closing `end.`) are not whole declarations: wrapping one would switch
+                // a whole section of the file on and off
+                let section_kw = matches!(t.text.to_ascii_lowercase().as_str(), "initialization" | "finalization" | "implementation" | "interface") || (t.text.eq_ignore_ascii_case("end") && d == 0);
+                let wrap_ok = !section_kw && if o.line_comments_only { d >= 1 && rng.chance(1, 6) } else { rng.chance(1, 12) };
                 if open_stack.len() < 2 && !s.ends_with(&format!("{{$else}}{}", nl)) && wrap_ok {
                     if !s.is_empty() && !s.ends_with('\n') {
                         s.push_str(nl);
